@@ -485,6 +485,12 @@ impl GitignoreBuilder {
                 line = &line[..line.len() - 1];
             }
         }
+        // A line such as `!` or `/` has no pattern left at this point. Like
+        // git, treat it as a line that matches nothing. (An empty glob with
+        // the `**/` prefix added below would otherwise match everything.)
+        if line.is_empty() {
+            return Ok(self);
+        }
         glob.actual = line.to_string();
         // If there is a literal slash, then this is a glob that must match the
         // entire path name. Otherwise, we should let it match anywhere, so use
